@@ -161,8 +161,11 @@ Definition dense_check_exact (x : nat * nat * mat S * mat S * mat S * mat S) : n
 End ExactCheck.
 
 (** * carriers *)
-(** ViterbiSemiring.star as coded: [torch.where(x >= 0, inf, 0.)] (finding F2: at x = 0 the
-    correct value is 0, see [Trop.tstar]) *)
+(** ViterbiSemiring.star as it was coded before /repo commit d2ec7af ("fix: ViterbiSemiring.star(0)
+    is 0, not inf"): [torch.where(x >= 0, inf, 0.)] (finding F2: at x = 0 the correct value is
+    0).  The current code, [torch.where(x > 0, inf, 0.)], is [Trop.tstar]; the correspondence
+    runs the model with [trop_ops].  The former star is kept for the theorems that document F2
+    (Proofs/SolveCarriers.v). *)
 Definition tstar_code (x : trop) : trop :=
   match x with
   | NInf => TFin 0%Qc
@@ -170,17 +173,13 @@ Definition tstar_code (x : trop) : trop :=
   | TPInf => TPInf
   end.
 Definition trop_code_ops : sr_ops trop := with_star trop_ops tstar_code.
-(** /repo is a moving target: F2 may have been repaired (star(0) = 0).  The harness probes
-    [ViterbiSemiring.star(0.)] once per run and tells the model which star the code has. *)
-Definition trop_as_coded (star0_is_inf : bool) : sr_ops trop :=
-  if star0_is_inf then trop_code_ops else trop_ops.
 Definition bool_leb (a b : bool) : bool := implb a b.
 
-Definition dense_check_trop (x : bool * nat * nat * list (list (nat * Q)) * list (list (nat * Q))
+Definition dense_check_trop (x : nat * nat * list (list (nat * Q)) * list (list (nat * Q))
                                  * list (list (nat * Q)) * list (list (nat * Q))) : nat :=
-  let '(star0_is_inf, n, m, A, B, X, U) := x in
+  let '(n, m, A, B, X, U) := x in
   let f := map (map trop_of) in
-  dense_check_exact (trop_as_coded star0_is_inf) trop_ops teqb tleb (n, m, f A, f B, f X, f U).
+  dense_check_exact trop_ops trop_ops teqb tleb (n, m, f A, f B, f X, f U).
 
 Definition dense_check_bool (x : nat * nat * list (list bool) * list (list bool)
                                  * list (list bool) * list (list bool)) : nat :=
@@ -304,10 +303,12 @@ Definition luval_of (x : nat * Q) : luval :=
 
 (** verdict for one call of RealSemiring.solve with a vector right-hand side, the answer
     [lu] of torch.linalg.solve observed by the harness ([None]: not called or raised):
-    0 ok; 10 the output is not what [real_solve_model] predicts from the observed LU answer;
-    7 the LU answer was accepted although it is not the least solution within tolerance
-    (the property fails on this input); 8 as 7 and the least solution has an infinite entry
-    (I - A singular: the float LU did not notice); 12 shapes *)
+    0 ok; 10 the output is not what [real_solve_model] predicts from the observed LU answer
+    (accepted: the LU answer; otherwise the generic answer); 7 the LU answer was accepted
+    although it is not the least solution within tolerance (the property fails on this input);
+    8 the output differs from the least solution only where that is +inf and the output is
+    finite >= 10^12 (divergent system evaluated in floating point; reported by the dense check
+    of the same case); 12 shapes *)
 Definition real_lu_check (x : nat * list (list (option Q)) * list (option Q)
                               * option (list (nat * Q)) * list obs) : nat :=
   let '(n, A, b, lu, X) := x in
@@ -318,6 +319,12 @@ Definition real_lu_check (x : nat * list (list (option Q)) * list (option Q)
     let pred := real_solve_model (fun _ _ => lu) n A b in
     let mu := solve_model ereal_ops n A b in
     let near v := forallb (fun i => obs_near 1%Q (nth i X (2, 0%Q, 0%Q)) (get1 ereal_ops v i)) (seq 0 n) in
-    if negb (near pred) then 10
-    else if near mu then 0
-    else if existsb is_inf mu then 8 else 7.
+    let accepted := negb (existsb is_inf (concat A))
+                    && match lu with Some l => forallb lu_nonneg l | None => false end in
+    (* the float evaluation of a divergent system: finite values >= 10^12 where mu = +inf *)
+    let huge := forallb (fun i => obs_near 1%Q (nth i X (2, 0%Q, 0%Q)) (get1 ereal_ops mu i)
+                                  || (is_inf (get1 ereal_ops mu i) && obs_huge (nth i X (2, 0%Q, 0%Q))))
+                        (seq 0 n) in
+    if accepted
+    then (if negb (near pred) then 10 else if near mu then 0 else if huge then 8 else 7)
+    else (if near mu then 0 else if huge then 8 else 10).
